@@ -18,8 +18,9 @@ harness/cmd/atp (mode "client": real client, scripted server stream, positional 
 import os, re, json, glob, random
 from vlib import common
 from props import atp_common as A
+from props import atp_hello as H
 
-SPECS = ["ATPClientEnvMC", "ATPTrace"]
+SPECS = ["ATPClientEnvMC", "ATPTrace", "ATPHelloMC", "ATPHelloTraceMC"]
 PKGS = ["./cmd/atp"]
 INVS = ["FailNotHang", "NoFabrication", "FReturnsOnce", "NoNilWake", "FlagHonest"]
 
@@ -219,6 +220,8 @@ def run(ctx):
                           dict(session=info.get("session"), line=info["line"], prefix=info.get("prefix"),
                                scenario=next((s for s in scen if s["id"] == info.get("session")), None),
                                events=evs[: info["event_index"] + 3], tlc=info.get("tlc_tail", "")))
+    # ------------------------------------------------------------ handshake and legacy framing (spec/ATPHello.tla, CSpec)
+    ctx.extra["handshake_v1_sessions_accepted"] = H.stage_client_env(ctx, thorough)
     ctx.exhaustive = False
 
 
@@ -226,6 +229,12 @@ def replay(ctx, rp):
     sc = rp["replay"].get("scenario")
     if not sc:
         raise common.Infra("replay file carries no scenario")
+    if sc.get("mode") in ("hello", "hello_srv"):
+        H.play(ctx, [sc], "client" if sc["mode"] == "hello" else "server", "env",
+               describable=sc.get("hello_bad") != "undescribable", label="replayhello")
+        ctx.rule = "replay of one recorded handshake / legacy-framing session"
+        ctx.sample(dict(id=sc.get("id"), ops=sc.get("ops")))
+        return
     rr = A.run_driver(ctx, [sc], jobs=1)[0]
     judge(ctx, sc, rr)
     ctx.sample(dict(id=sc.get("id"), ops=sc.get("ops"), fault=sc.get("fault")))
